@@ -2,6 +2,8 @@ package props
 
 import (
 	"context"
+	"crypto/ed25519"
+	"crypto/rand"
 	"errors"
 	"fmt"
 	"regexp"
@@ -20,8 +22,11 @@ import (
 // C04 — the SMTP dialogue stays legal and in step under every reply script.
 
 type c04Msg struct {
-	NRcpt int    `json:"nrcpt"`
-	Enc   string `json:"enc"`
+	NRcpt int `json:"nrcpt"`
+	// Unsignable: the message carries an S/MIME key the signer refuses at render time, so its rendering
+	// fails after DATA was accepted and before the first byte is written.
+	Unsignable bool   `json:"unsignable,omitempty"`
+	Enc        string `json:"enc"`
 }
 
 type c04Case struct {
@@ -57,7 +62,12 @@ func c04Exec(c *c04Case) (*c04Result, *core.Violation) {
 	}
 	out := &c04Result{}
 	for i, mm := range c.Msgs {
-		out.msgs = append(out.msgs, simpleMsg(i+1, mm.NRcpt, mm.Enc))
+		m := simpleMsg(i+1, mm.NRcpt, mm.Enc)
+		if mm.Unsignable {
+			_, priv, _ := ed25519.GenerateKey(rand.Reader)
+			_ = m.SignWithKeypair(priv, signingChain("ecdsa", false).Leaf, nil)
+		}
+		out.msgs = append(out.msgs, m)
 	}
 	first := 0
 	if c.Prior {
@@ -314,7 +324,7 @@ func c04Gen(t *rapid.T) c04Case {
 	c := c04Case{Cfg: cfg, Caps: caps, CapsTLS: capsTLS, DialAndSend: rapid.Bool().Draw(t, "dialandsend"), Prior: rapid.IntRange(0, 3).Draw(t, "prior") == 0}
 	n := rapid.IntRange(1, 3).Draw(t, "nmsgs")
 	for i := 0; i < n; i++ {
-		c.Msgs = append(c.Msgs, c04Msg{NRcpt: rapid.SampledFrom([]int{1, 1, 2, 2, 3, 3, 3, 0}).Draw(t, "nrcpt"), Enc: rapid.SampledFrom([]string{"quoted-printable", "base64", "8bit"}).Draw(t, "enc")})
+		c.Msgs = append(c.Msgs, c04Msg{NRcpt: rapid.SampledFrom([]int{1, 1, 2, 2, 3, 3, 3, 0}).Draw(t, "nrcpt"), Enc: rapid.SampledFrom([]string{"quoted-printable", "base64", "8bit"}).Draw(t, "enc"), Unsignable: rapid.IntRange(0, 11).Draw(t, "unsignable") == 0})
 	}
 	// candidate step ids
 	var steps []string
@@ -347,7 +357,7 @@ func c04Gen(t *rapid.T) c04Case {
 
 func c04Describe() {
 	rec := core.Rec("C04")
-	rec.Rule = "sessions of the real Client against the strict reference server (own RFC 5321 command parser + transaction automaton) over in-memory connections. Random part: rapid draws the advertised capability subset of {8BITMIME, SMTPUTF8, DSN, ENHANCEDSTATUSCODES, STARTTLS, AUTH} (optionally a different set after STARTTLS), TLS policy, AUTH on/off, DSN off/WithDSN/custom RET+NOTIFY, 1..3 messages x 1..3 recipients with QP/base64/8bit encoding, Send on a dialled client or DialAndSend, one case in four as the SECOND connection of a Client whose first connection (dial + close) met a server advertising every extension, 0..5 non-ok replies (4yz, 5yz, drop, 421+close) at drawn step ids, messages without any recipient in the batch, and (one plain-text case in 24) a client with an 80 ms time-out facing one positive reply that arrives 100..200 ms late. " +
+	rec.Rule = "sessions of the real Client against the strict reference server (own RFC 5321 command parser + transaction automaton) over in-memory connections. Random part: rapid draws the advertised capability subset of {8BITMIME, SMTPUTF8, DSN, ENHANCEDSTATUSCODES, STARTTLS, AUTH} (optionally a different set after STARTTLS), TLS policy, AUTH on/off, DSN off/WithDSN/custom RET+NOTIFY, 1..3 messages x 1..3 recipients with QP/base64/8bit encoding, Send on a dialled client or DialAndSend, one case in four as the SECOND connection of a Client whose first connection (dial + close) met a server advertising every extension, 0..5 non-ok replies (4yz, 5yz, drop, 421+close) at drawn step ids, messages without any recipient and messages whose rendering fails after DATA was accepted (before the first byte) in the batch, and (one plain-text case in 24) a client with an 80 ms time-out facing one positive reply that arrives 100..200 ms late. " +
 		"Enumerated part (TestC04Enum): for every capability subset (64; 8 in quick) x 2 client configurations x batch 2x2, the fault-free run is recorded and then EVERY step id it contains is replaced by each of {4yz, 5yz, drop} (all <= 1-fault scripts), and every rejected MAIL/RCPT/DATA combined with a refused abandoning RSET; thorough additionally all 2-fault scripts for four capability sets. " +
 		"Oracle: no automaton violation (bytes before greeting, command before EHLO, nested MAIL, RCPT without MAIL, DATA without or after a rejected recipient, unadvertised or mis-formed ESMTP parameter, pipelining, malformed command), no MAIL for an 8bit message without 8BITMIME, RET/NOTIFY exactly as configured, and the reply tag quoted by each SendError belongs to the command kind and transaction named by its Reason. " +
 		"Non-trivial: >= 1 non-ok reply, or a capability set that suppresses a configured parameter. Distinct by (capabilities, config, batch, fault script)."
@@ -392,7 +402,7 @@ func TestC04Enum(t *testing.T) {
 			if idx%core.Shards != core.Shard {
 				continue
 			}
-			base := c04Case{Cfg: cfg, Caps: caps, Msgs: []c04Msg{{2, "quoted-printable"}, {2, "8bit"}}, DialAndSend: set%2 == 0}
+			base := c04Case{Cfg: cfg, Caps: caps, Msgs: []c04Msg{{NRcpt: 2, Enc: "quoted-printable"}, {NRcpt: 2, Enc: "8bit"}}, DialAndSend: set%2 == 0}
 			out, hv := c04Exec(&base)
 			if hv != nil || out.sess == nil {
 				t.Fatalf("HARNESS-ERROR: fault-free run failed: %v", hv)
